@@ -733,4 +733,33 @@ def msgDeleteScopeOwner (env : Env) (stored : Option Scope) (addrs : List Addr)
           | .error e => .error (.invalid e)
           | .ok _ => .ok { existing with owners := owners }
 
+/-- `msgServer.WriteScope` (msg_server.go:31): `ValidateWriteScope` on the stored scope, then
+`SetScope(msg.Scope)`, which also moves the scope's coin to the value owner the message names, if
+it names one; on success the scope that is stored and its value owner. -/
+def msgWriteScope (env : Env) (stored : Option Scope) (storedVO : Addr) (proposed : Scope)
+    (proposedVO : Addr) (specRoles : List Role) (existingSpecRoles : Option (List Role))
+    (signers : List Addr) : Except Err (Scope × Addr) :=
+  match validateWriteScopeVO env stored storedVO proposed proposedVO specRoles existingSpecRoles signers with
+  | .error e => .error e
+  | .ok _ => .ok (proposed, if proposedVO != "" then proposedVO else storedVO)
+
+/-- `msgServer.DeleteScope` (msg_server.go:68): `ValidateDeleteScope` on the stored scope, then
+`RemoveScope`; on success what is stored under the id afterwards (nothing). -/
+def msgDeleteScope (env : Env) (stored : Scope) (storedVO : Addr) (specRoles : Option (List Role))
+    (signers : List Addr) : Except Err (Option Scope) :=
+  match validateDeleteScopeVO env stored storedVO specRoles signers with
+  | .error e => .error e
+  | .ok _ => .ok none
+
+/-- `msgServer.AddScopeDataAccess` / `DeleteScopeDataAccess` (msg_server.go:92, :120) for ONE
+address that is new / is listed: the signer check on the stored scope, then the stored scope with
+the data-access list one entry longer / shorter (`other` counts the entries) is stored. -/
+def msgScopeDataAccess (env : Env) (msgType : MsgType) (stored : Scope) (specRoles : List Role)
+    (signers : List Addr) : Except Err Scope :=
+  match validateScopeUpdateSigners env msgType stored specRoles signers with
+  | .error e => .error e
+  | .ok _ =>
+    .ok (if msgType = "AddScopeDataAccess" then { stored with other := stored.other + 1 }
+         else { stored with other := stored.other - 1 })
+
 end PvModel.Signers
